@@ -215,7 +215,7 @@ def run_check(prop, tier, seed, replay=None):
         paths = replay_paths(spec, replay)
     else:
         paths = corpus_paths(spec) + generate(spec, tier, seed)   # minimised earlier failures run first
-    aborted = [] if replay else getattr(generate, "aborted", [])
+    aborted = [] if replay else getattr(generate, "aborted", []) + getattr(generate, "aborted_corpus", [])
     with ThreadPoolExecutor(16) as ex:
         corr = list(ex.map(vlib.run_model, paths))
     viol, stats = spec.monitor(paths)
@@ -310,6 +310,10 @@ def corpus_paths(spec):
         out = os.path.join(d, name[:-5] + ".trace")
         p = vlib.run_harness("replay", out, 0, "quick", [os.path.join(cdir, name)])
         p.wait()
+        if p.returncode == 101:
+            # the driver panicked on this tree while replaying a kept case: reported like an aborted shard
+            generate.aborted_corpus = getattr(generate, "aborted_corpus", []) + [{"trace": name, "rc": 101, "output": p.stdout.read()[-600:]}]
+            continue
         if p.returncode != 0:
             raise vlib.MachineryError("corpus replay failed: " + name + ": " + p.stdout.read())
         outs.append(out)
